@@ -4,7 +4,7 @@
 //! For a scenario (input tree + build script) the real ructe is run (child process, as in `script`),
 //! then one edit at a time is applied — modify / delete / add a file in an input directory, in a
 //! sub-directory, in a new sub-directory, in an unrelated place, delete a directory, break a template,
-//! edit an imported Sass partial — and the script is run again into an empty OUT_DIR.
+//! edit an imported Sass partial — and the script is run again into the same OUT_DIR (as cargo does).
 //!
 //! * static oracle (`stale-after-edit`): if the result changed (other files, other bytes, other lines)
 //!   something must have changed at (or under) a path of a `cargo:rerun-if-changed`
@@ -329,7 +329,8 @@ pub fn run(args: &crate::Args) {
             apply_edit(&indir, &e, &mut r);
             stats.hit(&format!("edit.{}", format!("{e:?}").split('(').next().unwrap_or("?")));
             k += 1;
-            fresh(&outdir);
+            // OUT_DIR is kept between the runs, as cargo keeps it: whatever a run leaves there (generated files,
+            // anything else it may write) is what the next run finds
             let res = run_once(&exe, &root, &outdir, &sc.script, k, si);
             writeln!(req, "{}", res.req).unwrap();
             writeln!(imp, "{}", res.answer).unwrap();
